@@ -174,6 +174,8 @@ func WithdrawalsType(spec *Spec) ListTypeDef {
 type Withdrawals []Withdrawal
 
 func (ws *Withdrawals) Deserialize(spec *Spec, dr *codec.DecodingReader) error {
+	// decode into a recycled object: drop what it holds (dr.List appends)
+	*ws = (*ws)[:0]
 	return dr.List(func() codec.Deserializable {
 		i := len(*ws)
 		*ws = append(*ws, Withdrawal{})
@@ -380,6 +382,8 @@ func BlockSignedBLSToExecutionChangesType(spec *Spec) ListTypeDef {
 type SignedBLSToExecutionChanges []SignedBLSToExecutionChange
 
 func (li *SignedBLSToExecutionChanges) Deserialize(spec *Spec, dr *codec.DecodingReader) error {
+	// decode into a recycled object: drop what it holds (dr.List appends)
+	*li = (*li)[:0]
 	return dr.List(func() codec.Deserializable {
 		i := len(*li)
 		*li = append(*li, SignedBLSToExecutionChange{})
